@@ -209,7 +209,7 @@ def run(c):
     if not quick:
         deep = vlib.tlc(SPEC_DIR, "MC_Governance", "MC_Governance_deep.cfg", os.path.join(c.work, "mc"), workers=8, timeout=3000)
         c.require_ok(deep, "Governance design, deeper histories of the 2-account model (MC_Governance_deep.cfg)")
-    inp = dict(graphs=graphs, rcfg=RCFG, random=dict(histories=16 if quick else 240, length=120 if quick else 200), shards=12)
+    inp = dict(graphs=graphs, rcfg=RCFG, random=dict(histories=16 if quick else 96, length=120 if quick else 160), shards=12)
     inpath = os.path.join(c.work, "gov_in.json")
     json.dump(inp, open(inpath, "w"))
     outpath = os.path.join(c.work, "gov_out.json")
